@@ -233,4 +233,15 @@ theorem valid_placement (s : GameState) : GameState_valid_placement s = s.validP
   by_cases h6 : popcount (s.board.rabbits &&& s.currPlayerPieceMask s.board) < 8 <;>
   simp only [h1, h2, h3, h4, h5, h6, if_true, if_false, List.nil_append, List.cons_append]
 
+theorem play_phase_new (h : BB) (hist : List BB) (prev : List Board) (pps : PPS) (t : Bool) :
+    PlayPhase_new h hist prev pps t = { prev := prev, pps := pps, initHash := h, hist := hist, trapped := t } := rfl
+
+theorem play_phase_getters (pp : PlayPhase) :
+    PlayPhase_previous_piece_boards pp = pp.prev ∧ PlayPhase_push_pull_state pp = pp.pps ∧
+      PlayPhase_piece_trapped_this_turn pp = pp.trapped ∧ PlayPhase_hash_history pp = pp.hist :=
+  ⟨rfl, rfl, rfl, rfl⟩
+
+theorem game_state_new (p1 : Bool) (n : Nat) (ph : Phase) (b : Board) (h : BB) :
+    GameState_new p1 n ph b h = { p1Turn := p1, moveNo := n, phase := ph, board := b, hash := h } := rfl
+
 end Arimaa.RsAgree
